@@ -152,11 +152,6 @@ pub fn ilv_oracle() -> Oracle {
                 _ => {}
             }
         }
-        for c in run.calls.iter() {
-            if let Res::Panicked(m) = &c.res {
-                out.push(Finding::new("caller-panic", format!("panic:{}", crate::harness::ilv::normalize_panic(m)), format!("{} panicked: {}", c.op.short(), m)));
-            }
-        }
     })
 }
 
